@@ -532,7 +532,7 @@ func rule027(r *core.Run) {
 				thisTested := false
 				rmPath := stripPathConv(r, c.Common().Args[0])
 				for _, g := range core.GuardsOf(c.(ssa.Instruction)) {
-					gs := r.P.SliceOf(g.If.Cond, core.SliceOpts{Depth: -1})
+					gs := r.P.SliceOf(g.If.Cond, core.SliceOpts{Depth: -1, Control: true})
 					if gs.Has("call:builtin:len") && (gs.Has("call:github.com/spf13/afero.ReadDir") || gs.Has("call:invoke:github.com/spf13/afero.File.Readdir") || gs.Has("call:invoke:github.com/spf13/afero.File.Readdirnames")) {
 						cd := core.CondOf(g.If.Cond)
 						truth := g.Branch
@@ -663,7 +663,7 @@ func rule029(r *core.Run) {
 			}
 			rs := r.P.SliceOf(c.Call.Value, core.SliceOpts{Depth: -1})
 			for sc := range rs.Calls {
-				if strings.HasSuffix(r.P.CalleeName(sc), "afero.Fs.Stat") && len(sc.Common().Args) == 1 && stripPathConv(r, sc.Common().Args[0]) == rmPath {
+				if strings.HasSuffix(r.P.CalleeName(sc), "afero.Fs.Stat") && len(sc.Common().Args) == 1 && sameValue(r, stripPathConv(r, sc.Common().Args[0]), rmPath, 0) {
 					assume[c] = true
 				}
 			}
